@@ -82,6 +82,19 @@ CHECKS = {
         note=(TB_COMMON + "np.power is a Section variable with four named hypotheses (denominator positive, 0 at 0, range, monotone); the run "
               "instantiates it with integer exponents and compares to 2^-48. Keras's Callback plumbing is replaced by stand-in model/layer objects."),
         technique="Coq proof (ring identities, induction over hook histories, oracle as Section variable) + differential correspondence"),
+    "C08": dict(
+        category="proof",
+        text=("Coq theorems (Properties/C08.v) with the random draw as an explicit argument, hence for ALL draws: the result is floor or ceil "
+              "(never further than one step), codes are fixed points, rounding up happens exactly for u <= frac(x) and floor*(1-frac)+ceil*frac "
+              "= x (so the expectation under the uniform law is the input), the clipped result is one of the two codes adjacent to the clipped "
+              "input, with the learning phase off the function is round-half-even; power-of-two variant: threshold and mean identity. "
+              "Correspondence: tf.random.uniform is replaced by injected draws (0, frac-ulp, frac, frac+ulp, 1/2, 1-2^-24, random) and the "
+              "implementation is compared exactly with a float32-faithful threshold model; phase 0 is compared bitwise with the deterministic "
+              "configuration, stochastic_binary/ternary with binary/ternary. Two genuine defects were repaired (fix: commits)."),
+        design_ref="DESIGN.md section 5 C08, section 10",
+        note=(TB_COMMON + "K.learning_phase/K.set_learning_phase are harness stubs (absent under the pinned Keras 3: known finding). "
+              "The only probabilistic assumption is that P(u <= t) = t for the uniform law; a 4096-draw statistical run is included as a test, not as proof."),
+        technique="Coq proof with the random draw universally quantified + derandomised differential correspondence"),
 }
 
 NOT_YET = "check not built yet in this development (design in DESIGN.md section 5); not a claim that proof is inapplicable"
